@@ -412,12 +412,12 @@ class FG:
         return ("assign", "{% set " + v + " = name ~ g(" + self.t() + ") %}{{ g('p') }}{{ " + v
                 + " }}")
 
-    def tglobals(self):
+    def tglobals(self, kind=None):
         """A fragment whose output depends on the template-level globals of the main
         template: through macros / exported variables of the cached library (imported at
         the head of the template, by a from-import, by an import behind an await point,
         by a template included without context) or read directly."""
-        k = self.r.randrange(5)
+        k = self.r.randrange(5) if kind is None else kind % 5
         if k == 0:
             return (TG_LABELS[0], "{{ lib.site0() }}{{ g(" + self.t() + ") }}{{ lib.SV }}"
                     "{{ lib.site0() }}")
@@ -445,13 +445,8 @@ def render_frags(frags):
     return SEP.join(lab + LAB + src for lab, src in frags)
 
 
-def gen_case(rng, force_evalctx=False, force_kinds=False, all_families=False, rng2=None,
-             rng_tg=None):
+def gen_case(rng, force_evalctx=False, force_kinds=False, all_families=False, rng2=None):
     """rng2: stream for the environment policy values of the case (None: defaults).
-    rng_tg: stream of its own for TEMPLATE-LEVEL GLOBALS (None: none): main 0 / main 1 are
-    loaded with different template-level globals (one of TG_VARIANTS), each gets 1-2
-    fragments whose output depends on them, tasks 0 / 1 render main 0 / 1; tasks that
-    share a main template share its globals.
     force_kinds: both main templates get a fragment with values of several kinds,
     one starting with a plain / engine-made lazy value, the other with an awaitable
     one behind its first await point; tasks 0 / 1 render main 0 / 1.
@@ -462,10 +457,6 @@ def gen_case(rng, force_evalctx=False, force_kinds=False, all_families=False, rn
     tpls = {"lib.j2": LIB, "libctx.j2": LIBCTX, "tginc.j2": TGINC}
     for i, s in enumerate(INC):
         tpls["inc%d.j2" % i] = s
-    fg_tg = None
-    if rng_tg is not None:
-        fg_tg = FG(rng_tg)
-        fg_tg.n = 500
     # parent with blocks
     tpls["base.j2"] = ("{% import 'lib.j2' as lib %}"
                        + "base" + LAB + "{{ name }}{% block b1 %}{{ g('b1') }}{{ name }}{% endblock %}"
@@ -488,9 +479,6 @@ def gen_case(rng, force_evalctx=False, force_kinds=False, all_families=False, rn
             if rng.random() < 0.5:
                 frags.insert(rng.randint(0, len(frags)),
                              fg.imp_evalctx_probe() if mi == 0 else fg.imp_autoescape())
-        if fg_tg is not None:
-            for _ in range(rng_tg.randint(1, 2)):
-                frags.insert(rng_tg.randint(0, len(frags)), fg_tg.tglobals())
         body = render_frags(frags)
         head = "{% import 'lib.j2' as lib %}"
         name = "m%d.j2" % mi
@@ -510,8 +498,7 @@ def gen_case(rng, force_evalctx=False, force_kinds=False, all_families=False, rn
         n = rng.randint(2, 3)
         xs = [rng.randint(1, 9) for _ in range(n)]
         tasks.append({
-            "main": mains[t] if (force_evalctx or force_kinds or fg_tg is not None) and t < 2
-            else rng.choice(mains),
+            "main": mains[t] if (force_evalctx or force_kinds) and t < 2 else rng.choice(mains),
             "name": names[t],
             "xs": xs,
             "ys": [t + 1, t + 4],
@@ -523,18 +510,21 @@ def gen_case(rng, force_evalctx=False, force_kinds=False, all_families=False, rn
     # make sure there is contrast where it matters
     if ntasks >= 2 and tasks[0]["ae"] == tasks[1]["ae"]:
         tasks[1]["ae"] = not tasks[0]["ae"]
-    case = {"tpls": tpls, "tasks": tasks, "autoescape": rng.random() < 0.3,
+    return {"tpls": tpls, "tasks": tasks, "autoescape": rng.random() < 0.3,
             "policies": gen_policies(rng2) if rng2 is not None else None}
-    if fg_tg is not None:
-        assign_tglobals(rng_tg, tasks, mains)
-    return case
 
 
-def assign_tglobals(rng, tasks, mains):
+def assign_tglobals(rng, tasks, mains, offset=None):
     """Template-level globals are a property of the (cached) main template: tasks that
-    render the same main template get the same ones."""
-    variant = rng.choice(TG_VARIANTS)
-    if rng.random() < 0.5:
+    render the same main template get the same ones.  offset: selects the variant
+    (None: random)."""
+    if offset is None:
+        variant = rng.choice(TG_VARIANTS)
+        flip = rng.random() < 0.5
+    else:
+        variant = TG_VARIANTS[offset % len(TG_VARIANTS)]
+        flip = (offset // len(TG_VARIANTS)) % 2 == 1
+    if flip:
         variant = variant[::-1]
     per_main = {m: variant[i % 2] for i, m in enumerate(mains)}
     for t in tasks:
@@ -582,6 +572,45 @@ def gen_pair_case(rng, offset, filters=None):
         })
     return {"tpls": tpls, "tasks": tasks, "autoescape": rng.random() < 0.3,
             "policies": gen_policies(rng), "ff_pair": names, "maxg": 3}
+
+
+def gen_tg_case(rng, offset):
+    """A small case around TEMPLATE-LEVEL GLOBALS (rides along with every generated-template
+    case, like the filter-form pair cases): main 0 / main 1 import the cached library at
+    their head, hold 1-2 fragments whose output depends on the template-level globals of
+    the main template (offset rotates through the five kinds) next to 0-1 fragments of the
+    general alphabet, and are loaded with different template-level globals (offset rotates
+    through TG_VARIANTS and their mirror images); tasks 0 / 1 render main 0 / 1, an
+    optional third task either (sharing that main's globals); <= 3 gates per task
+    besides the start."""
+    fg = FG(rng)
+    tpls = {"lib.j2": LIB, "libctx.j2": LIBCTX, "tginc.j2": TGINC}
+    for i, s in enumerate(INC):
+        tpls["inc%d.j2" % i] = s
+    mains = []
+    for mi in range(2):
+        frags = [fg.tglobals(offset + 2 * mi)]
+        if rng.random() < 0.5:
+            frags.insert(rng.randint(0, len(frags)), fg.tglobals())
+        if rng.random() < 0.5:
+            frags.insert(rng.randint(0, len(frags)), fg.frag())
+        name = "m%d.j2" % mi
+        tpls[name] = "{% import 'lib.j2' as lib %}" + render_frags(frags)
+        mains.append(name)
+    names3 = ["<A&1>", "B\"2'", "C>3<"]
+    tasks = []
+    for t in range(rng.choice([2, 2, 3])):
+        n = rng.randint(2, 3)
+        xs = [rng.randint(1, 9) for _ in range(n)]
+        tasks.append({
+            "main": mains[t] if t < 2 else rng.choice(mains), "name": names3[t], "xs": xs,
+            "ys": [t + 1, t + 4], "skip": rng.choice(xs), "ae": t % 2 == 0,
+            "tree": [{"v": t + 1, "kids": [{"v": t + 5, "kids": []}]}, {"v": t + 3, "kids": []}],
+            "gate_picks": [rng.random() for _ in range(4)],
+        })
+    assign_tglobals(rng, tasks, mains, offset)
+    return {"tpls": tpls, "tasks": tasks, "autoescape": rng.random() < 0.3,
+            "policies": gen_policies(rng), "tg_case": True, "maxg": 3}
 
 
 def choose_gates(picks, ncalls, maxg, prefer=()):
@@ -731,13 +760,15 @@ MOD_TG_USES = {
 }
 
 
-def gen_modcase(rng, rng_tg=None):
+def gen_modcase(rng, rng_tg=None, offset=None):
     """rng_tg: stream of its own for template-level globals (None: none): the library
     additionally reads names it never defines, every import of it in the case is
     followed by a use of them, and the main templates are loaded with different
-    template-level globals (tasks sharing a main template share them)."""
+    template-level globals (tasks sharing a main template share them; offset selects
+    the variant); such a case is marked 'small' (lower cap on the number of orders)."""
     case = _gen_modcase(rng)
     if rng_tg is not None:
+        case["small"] = True
         tpls = case["tpls"]
         tpls["mlib.j2"] += MLIB_TG
         for name in sorted(tpls):
@@ -751,7 +782,7 @@ def gen_modcase(rng, rng_tg=None):
             tpls["mmcopy.j2"] = tpls[mains[0]]
             case["tasks"][-1]["main"] = "mmcopy.j2"
             mains.append("mmcopy.j2")
-        assign_tglobals(rng_tg, case["tasks"], mains)
+        assign_tglobals(rng_tg, case["tasks"], mains, offset)
     return case
 
 
